@@ -1,6 +1,7 @@
 package chk
 
 import (
+	"os"
 	"fmt"
 	"go/token"
 	"go/types"
@@ -14,7 +15,7 @@ func fmtRules() []*Rule {
 		{ID: "FMT-spill", Props: []string{"C14", "C01", "C02", "C03", "C04", "C13"}, Min: 10,
 			Doc: "local-payload computation equals fileformat2 §1.6: X = U−35 (table leaf) / ((U−12)·64/255)−23 (index cells, both kinds identical), M = ((U−12)·32/255)−23, K = M+((P−M) mod (U−4)), choice P≤X→P, K≤X→K, else M; overflow pointer = 4 bytes after the local part",
 			Run: runSpill},
-		{ID: "FMT-overflow", Props: []string{"C14", "C01", "C02", "C08", "C13", "C03", "C18", "C04"}, Min: 4,
+		{ID: "FMT-overflow", Props: []string{"C14", "C01", "C02", "C08", "C13", "C03", "C18", "C04", "C17"}, Min: 4,
 			Doc: "overflow page layout: next pointer = big-endian bytes 0..3, content from byte 4 to the end of the page; whole pages are appended (so the append cannot write into the cached page's spare capacity); result cut to the declared length",
 			Run: runOverflow},
 		{ID: "REC-table", Props: []string{"C14", "C01", "C02", "C03", "C04", "C13"}, Min: 14,
@@ -130,7 +131,7 @@ func runSpill(c *Ctx) {
 		call := calls[0]
 		var ps ssa.Value
 		for _, prm := range fn.Params {
-			if types.Identical(prm.Type(), types.Typ[types.Int]) {
+			if types.Identical(prm.Type(), types.Typ[types.Int]) && !p.ExtraParams(fn)[prm] {
 				ps = prm
 			}
 		}
@@ -283,6 +284,9 @@ func runOverflow(c *Ctx) {
 			okFollow = false
 		}
 		wantAcc := "append(" + accT + "," + page + "[const:4:])"
+		if os.Getenv("SQLCHECK_DEBUG") != "" {
+			fmt.Fprintf(os.Stderr, "FMT-overflow: accNext=%s want=%s pgNext=%s\n", accNext, wantAcc, pgNext)
+		}
 		if accNext != wantAcc {
 			if strings.HasPrefix(accNext, "append("+accT+",") {
 				okAppend = false // something is appended, but not the page's whole content
